@@ -506,6 +506,8 @@ func (i *Interp) callBuiltin(caller *frame, fn *ssa.Builtin, args []value) value
 		switch x := args[0].(type) {
 		case *Term:
 			return StrLen(x)
+		case symBytes:
+			return StrLen(x.t)
 		case []value:
 			return TBV(64, uint64(len(x)))
 		case array:
